@@ -69,18 +69,25 @@ class CaseTimeout(BaseException):
 
 
 def with_alarm(seconds, fn, *a, **kw):
+    """run fn under a per-case time limit.  The limit is on the *CPU time of this process* (ITIMER_PROF), so a busy
+    machine (16 checks side by side) cannot turn a slow case into a "hang"; a wall-clock backstop of 20x the limit
+    catches a case that sleeps instead of spinning."""
     import signal
 
     def _h(signum, frame):
         raise CaseTimeout()
 
-    old = signal.signal(signal.SIGALRM, _h)
-    signal.setitimer(signal.ITIMER_REAL, seconds)
+    old_p = signal.signal(signal.SIGPROF, _h)
+    old_r = signal.signal(signal.SIGALRM, _h)
+    signal.setitimer(signal.ITIMER_PROF, seconds)
+    signal.setitimer(signal.ITIMER_REAL, seconds * 20)
     try:
         return fn(*a, **kw)
     finally:
+        signal.setitimer(signal.ITIMER_PROF, 0)
         signal.setitimer(signal.ITIMER_REAL, 0)
-        signal.signal(signal.SIGALRM, old)
+        signal.signal(signal.SIGPROF, old_p)
+        signal.signal(signal.SIGALRM, old_r)
 
 
 # --------------------------------------------------------------------------------------------
